@@ -109,4 +109,72 @@ theorem rankOf_of_sorted {l : List Rat} (h : l.Pairwise (· ≤ ·)) : rankOf l 
 theorem takeIdx_range (l : List Rat) : takeIdx l (List.range l.length) = l := by
   unfold takeIdx; exact range_map_getD l
 
+/-! ### symmetric sums: the ranks `r/(n−1)` of a tie-free sample and the clipping are symmetric about `1/2` -/
+
+/-- the sum of a function that is antisymmetric under the reflection `r ↦ n − 1 − r` over `0..n−1` is zero -/
+theorem sum_range_antisymm (n : Nat) (φ : Nat → Rat) (h : ∀ r, r < n → φ (n - 1 - r) = - φ r) :
+    ((List.range n).map φ).sum = 0 := by
+  have hrev : (List.range n).reverse = (List.range n).map (fun x => 0 + n - 1 - x) := by
+    have := @List.reverse_range' 0 n
+    rwa [← List.range_eq_range'] at this
+  have h1 : ((List.range n).map φ).sum = (((List.range n).reverse).map φ).sum := by
+    rw [List.map_reverse, List.sum_reverse]
+  rw [hrev, List.map_map] at h1
+  have h2 : (List.range n).map (φ ∘ fun x => 0 + n - 1 - x) = (List.range n).map (fun x => - φ x) := by
+    apply List.map_congr_left
+    intro r hr
+    simp only [Function.comp, Nat.zero_add]
+    exact h r (List.mem_range.mp hr)
+  rw [h2] at h1
+  have h3 : ((List.range n).map (fun x => - φ x)).sum = - ((List.range n).map φ).sum := by
+    rw [List.sum_neg, List.map_map]; rfl
+  rw [h3] at h1
+  linarith
+
+/-- `threshold_cdf_vals` commutes with the reflection `v ↦ 1 − v` (for `t ≤ 1/2`) -/
+theorem thresholdCdf_reflect (t v : Rat) (ht : t ≤ 1 / 2) : thresholdCdf t (1 - v) = 1 - thresholdCdf t v := by
+  rcases lt_or_ge v t with h | h
+  · rw [thresholdCdf_below t v ht h, thresholdCdf_above t (1 - v) ht (by linarith)]
+  · rcases le_or_gt v (1 - t) with h' | h'
+    · rw [thresholdCdf_id t v h h', thresholdCdf_id t (1 - v) (by linarith) (by linarith)]
+    · rw [thresholdCdf_above t v ht h', thresholdCdf_below t (1 - v) ht (by linarith)]
+      ring
+
+/-- the ranks of a tie-free sample, as a list, are `argsort(argsort(·))` -/
+theorem map_rankLt_eq_rankOf {H : List Rat} (hH : H.Nodup) : H.map (rankLt H) = rankOf H := by
+  apply List.ext_getElem
+  · rw [List.length_map, rankOf_length]
+  · intro i h1 h2
+    have hi : i < H.length := by simpa using h1
+    rw [List.getElem_map, ← getDN_eq _ i h2, rankOf_eq_rankLt hH hi, getD_eq H i hi]
+
+/-- linear-interpolation ecdf of a tie-free sample at its own values: `rank / (n − 1)` -/
+theorem ecdfLin_own {H : List Rat} (hH : H.Nodup) (hn : 2 ≤ H.length) {x : Rat} (hx : x ∈ H) :
+    ecdfLin1 H x = ((rankLt H x : Nat) : Rat) / ((H.length : Rat) - 1) :=
+  ecdfLin_at_sample hn hx (count_le_nodup hH hx)
+
+/-- **the symmetric sum**: for a tie-free sample, any antisymmetric-about-½ function of the (clipped) ecdf values
+    sums to zero -/
+theorem sum_symm_ecdf {H : List Rat} (hH : H.Nodup) (hn : 2 ≤ H.length) (t : Rat) (ht : t ≤ 1 / 2) (g : Rat → Rat)
+    (hg : ∀ q, g (1 - q) = - g q) :
+    (H.map (fun x => g (thresholdCdf t (ecdfLin1 H x)))).sum = 0 := by
+  have hn' : (2 : Rat) ≤ (H.length : Rat) := by exact_mod_cast hn
+  have hd : (H.length : Rat) - 1 ≠ 0 := by intro h; linarith
+  have e1 : H.map (fun x => g (thresholdCdf t (ecdfLin1 H x)))
+      = (H.map (rankLt H)).map (fun (r : Nat) => g (thresholdCdf t ((r : Rat) / ((H.length : Rat) - 1)))) := by
+    rw [List.map_map]
+    apply List.map_congr_left
+    intro x hx
+    simp only [Function.comp]
+    rw [ecdfLin_own hH hn hx]
+  rw [e1, map_rankLt_eq_rankOf hH, ((rankOf_perm H).map _).sum_eq]
+  apply sum_range_antisymm
+  intro r hr
+  have hr' : ((H.length - 1 - r : Nat) : Rat) = (H.length : Rat) - 1 - (r : Rat) := by
+    rw [Nat.cast_sub (by omega), Nat.cast_sub (by omega)]; simp
+  rw [hr']
+  have : ((H.length : Rat) - 1 - (r : Rat)) / ((H.length : Rat) - 1) = 1 - (r : Rat) / ((H.length : Rat) - 1) := by
+    field_simp
+  rw [this, thresholdCdf_reflect t _ ht, hg]
+
 end Lemmas.C01
